@@ -37,6 +37,104 @@ func (g *Gen) Obligations() []*Oblig {
 // Query renders the SMT-LIB script for one obligation: everything that precedes it, then the negated goal.
 func (g *Gen) Query(ob *Oblig) string { return g.query(ob, false) }
 
+var symRe = regexp.MustCompile(`\|[^|]+\|`)
+
+// ubiquitousSym: path-condition and allocation-frontier symbols occur in almost every assertion; sharing only such a
+// symbol does not make two assertions relevant to each other.
+func ubiquitousSym(s string) bool {
+	return strings.HasPrefix(s, "|reach") || strings.HasPrefix(s, "|alloc!") || strings.HasSuffix(s, "$alloc|")
+}
+
+// slicedAsserts is a cone-of-influence filter over the hypotheses of an obligation: starting from the symbols of
+// the goal, an assertion is kept if it shares a (non-ubiquitous) symbol with what is already kept; assertions made
+// only of path-condition symbols are kept when one of them is. Dropping hypotheses can only make a proof harder,
+// never unsound, so an `unsat` answer for the sliced query is a proof of the full one. Used as an additional
+// portfolio member for the large queries of dataflow-only units (thousands of type facts about havocked heaps).
+func (g *Gen) slicedAsserts(ob *Oblig) map[int]bool {
+	type info struct{ all, key []string }
+	infos := map[int]*info{}
+	index := map[string][]int{}
+	for i, e := range g.events[:ob.evIndex] {
+		if e.K != evAssert {
+			continue
+		}
+		in := &info{}
+		seen := map[string]bool{}
+		for _, m := range symRe.FindAllString(e.Text, -1) {
+			if seen[m] {
+				continue
+			}
+			seen[m] = true
+			in.all = append(in.all, m)
+			if !ubiquitousSym(m) {
+				in.key = append(in.key, m)
+			}
+		}
+		infos[i] = in
+		trig := in.key
+		if len(trig) == 0 {
+			trig = in.all
+		}
+		// a definition `(= |x| term)` of a generated symbol matters only when x itself does (it says nothing
+		// about the symbols of term unless x is used)
+		if strings.HasPrefix(e.Text, "(assert (= |") && len(in.all) > 0 && strings.HasPrefix(e.Text[len("(assert (= "):], in.all[0]+" ") && strings.Contains(in.all[0], "!") {
+			trig = in.all[:1]
+		}
+		for _, m := range trig {
+			index[m] = append(index[m], i)
+		}
+	}
+	keep := map[int]bool{}
+	rel := map[string]bool{}
+	var work []string
+	add := func(m string) {
+		if !rel[m] {
+			rel[m] = true
+			work = append(work, m)
+		}
+	}
+	for _, m := range symRe.FindAllString(ob.Guard+" "+ob.Goal, -1) {
+		add(m)
+	}
+	for len(work) > 0 {
+		m := work[len(work)-1]
+		work = work[:len(work)-1]
+		for _, i := range index[m] {
+			if keep[i] {
+				continue
+			}
+			keep[i] = true
+			for _, x := range infos[i].all {
+				add(x)
+			}
+		}
+	}
+	return keep
+}
+
+// querySliced renders the obligation with only the hypotheses in its cone of influence (see slicedAsserts).
+func (g *Gen) querySliced(ob *Oblig) string {
+	keep := g.slicedAsserts(ob)
+	var b strings.Builder
+	for _, e := range g.events[:ob.evIndex] {
+		if e.K == evDecl {
+			b.WriteString(e.Text)
+			b.WriteByte('\n')
+		}
+	}
+	for i, e := range g.events[:ob.evIndex] {
+		if e.K == evAssert && keep[i] {
+			b.WriteString(e.Text)
+			b.WriteByte('\n')
+		}
+	}
+	b.WriteString("(assert " + ob.Guard + ")\n")
+	b.WriteString("(assert (not " + ob.Goal + "))\n")
+	b.WriteString("(check-sat)\n")
+	body := b.String()
+	return "(set-option :produce-models true)\n(set-logic ALL)\n" + g.prelude(body) + body
+}
+
 // query with dropQuant omits every quantified assertion (an over-approximation used only to find candidate
 // counterexamples when the full query is undecided; such models are reported as candidates and replayed).
 func (g *Gen) query(ob *Oblig, dropQuant bool) string {
@@ -179,8 +277,25 @@ func solveOne(dir string, g *Gen, ob *Oblig, quickT, slowT int) *Result {
 	}
 	ctx, cancel := context.WithCancel(context.Background())
 	defer cancel()
-	ch := make(chan r, 3)
+	ch := make(chan r, 5)
 	var wg sync.WaitGroup
+	// additional portfolio members: the same obligation with only the hypotheses in its cone of influence; only a
+	// proof (`unsat`) is taken from them
+	fSliced := strings.TrimSuffix(fname, ".smt2") + ".sliced.smt2"
+	_ = os.WriteFile(fSliced, []byte(g.querySliced(ob)), 0o644)
+	for _, name := range []string{"z3-new", "cvc5"} {
+		wg.Add(1)
+		go func(name string) {
+			defer wg.Done()
+			sem <- struct{}{}
+			defer func() { <-sem }()
+			st, out, ms := runSolver(ctx, solvers[name], fSliced, slowT)
+			if st != "unsat" {
+				st = "unknown"
+			}
+			ch <- r{st, out, name + "(sliced)", ms}
+		}(name)
+	}
 	for _, name := range []string{"z3", "cvc5", "z3-new"} {
 		wg.Add(1)
 		go func(name string) {
